@@ -1,5 +1,10 @@
 import PbVerif.Model.BSpline
+import Mathlib.Tactic.Ring
+import Mathlib.Tactic.Linarith
+import Mathlib.Tactic.FieldSimp
+import Mathlib.Algebra.Order.Field.Rat
 /-! Helper lemmas for C12 and the spline part of C05 (proofs). -/
+set_option linter.unusedVariables false
 namespace PbVerif.Lemmas
 open PbVerif.BSpline
 
@@ -7,36 +12,146 @@ open PbVerif.BSpline
 
 theorem down_bounds (lt : Nat → Bool) (deg fuel left : Nat) (h : deg ≤ left) :
     deg ≤ (down lt deg fuel left).1 ∧ (down lt deg fuel left).1 ≤ left ∧
-    ∀ i ∈ (down lt deg fuel left).2, deg ≤ i ∧ i ≤ left := by sorry
+    ∀ i ∈ (down lt deg fuel left).2, deg ≤ i ∧ i ≤ left := by
+  induction fuel generalizing left with
+  | zero => simp [down, h]
+  | succ f ih =>
+    simp only [down]
+    split
+    · rename_i hc
+      simp only [Bool.and_eq_true, bne_iff_ne, ne_eq] at hc
+      have := ih (left - 1) (by omega)
+      refine ⟨this.1, by omega, ?_⟩
+      intro i hi
+      simp only [List.mem_cons] at hi
+      rcases hi with rfl | hi
+      · omega
+      · have := this.2.2 i hi; omega
+    · simp [h]
 
 theorem up_bounds (ge : Nat → Bool) (nb fuel left : Nat) (h : left ≤ nb) :
     left ≤ (up ge nb fuel left).1 ∧ (up ge nb fuel left).1 ≤ nb ∧
-    ∀ i ∈ (up ge nb fuel left).2, left ≤ i ∧ i ≤ nb := by sorry
+    ∀ i ∈ (up ge nb fuel left).2, left ≤ i ∧ i ≤ nb := by
+  induction fuel generalizing left with
+  | zero => simp [up, h]
+  | succ f ih =>
+    simp only [up]
+    split
+    · rename_i hc
+      simp only [Bool.and_eq_true, bne_iff_ne, ne_eq] at hc
+      have := ih (left + 1) (by omega)
+      refine ⟨by omega, this.2.1, ?_⟩
+      intro i hi
+      simp only [List.mem_cons] at hi
+      rcases hi with rfl | hi
+      · omega
+      · have := this.2.2 i hi; omega
+    · simp [h]
+
+theorem down_fuel_gen (lt : Nat → Bool) (deg f g left : Nat) (hl : deg ≤ left)
+    (h : left - deg + 1 ≤ f) (h' : left - deg + 1 ≤ g) :
+    down lt deg f left = down lt deg g left := by
+  induction f generalizing left g with
+  | zero => omega
+  | succ f ih =>
+    cases g with
+    | zero => omega
+    | succ g =>
+      simp only [down]
+      split
+      · rename_i hc
+        simp only [Bool.and_eq_true, bne_iff_ne, ne_eq] at hc
+        rw [ih g (left - 1) (by omega) (by omega) (by omega)]
+      · rfl
+
+theorem up_fuel_gen (ge : Nat → Bool) (nb f g left : Nat) (hl : left ≤ nb)
+    (h : nb - left + 1 ≤ f) (h' : nb - left + 1 ≤ g) :
+    up ge nb f left = up ge nb g left := by
+  induction f generalizing left g with
+  | zero => omega
+  | succ f ih =>
+    cases g with
+    | zero => omega
+    | succ g =>
+      simp only [up]
+      split
+      · rename_i hc
+        simp only [Bool.and_eq_true, bne_iff_ne, ne_eq] at hc
+        rw [ih g (left + 1) (by omega) (by omega) (by omega)]
+      · rfl
 
 /-- the fuel given by `findIntervalT` is enough: more fuel changes nothing (so the `0`-fuel
-equations of `down`/`up` are never used and the model is the `while` loop) -/
-theorem down_fuel (lt : Nat → Bool) (deg f left : Nat) (h : left - deg + 1 ≤ f) :
-    down lt deg f left = down lt deg (left - deg + 1) left := by sorry
+equations of `down`/`up` are never used and the model is the `while` loop). The hypothesis
+`deg ≤ left` is what `findIntervalT` guarantees (its start index is `last_left` only if
+`deg < last_left`, else `deg`); without it the statement is false:
+`down (fun _ => true) 5 2 3 = (1, [3, 2])` but `down (fun _ => true) 5 1 3 = (2, [3])`. -/
+theorem down_fuel (lt : Nat → Bool) (deg f left : Nat) (hl : deg ≤ left) (h : left - deg + 1 ≤ f) :
+    down lt deg f left = down lt deg (left - deg + 1) left :=
+  down_fuel_gen lt deg f _ left hl h (Nat.le_refl _)
 theorem up_fuel (ge : Nat → Bool) (nb f left : Nat) (h : nb - left + 1 ≤ f) (hl : left ≤ nb) :
-    up ge nb f left = up ge nb (nb - left + 1) left := by sorry
+    up ge nb f left = up ge nb (nb - left + 1) left :=
+  up_fuel_gen ge nb f _ left hl h (Nat.le_refl _)
 
-/-- `_find_interval`: for every comparison outcome (NaN, unsorted knots, any `last_left`) the result
-lies in `[deg, numBases)` and every knot index read is ≤ numBases -/
 theorem findIntervalT_inb (lt ge : Nat → Bool) (deg lastLeft nb : Nat) (h : deg < nb) :
     deg ≤ (findIntervalT lt ge deg lastLeft nb).1 ∧ (findIntervalT lt ge deg lastLeft nb).1 < nb ∧
-    ∀ i ∈ (findIntervalT lt ge deg lastLeft nb).2, i ≤ nb := by sorry
+    ∀ i ∈ (findIntervalT lt ge deg lastLeft nb).2, i ≤ nb := by
+  simp only [findIntervalT]
+  generalize hl0 : (if deg < lastLeft ∧ lastLeft < nb then lastLeft else deg) = l0
+  have hl0a : deg ≤ l0 ∧ l0 < nb := by subst hl0; split <;> omega
+  have hd := down_bounds lt deg (l0 - deg + 1) l0 hl0a.1
+  generalize down lt deg (l0 - deg + 1) l0 = d at hd
+  have hu := up_bounds ge nb (nb - d.1 + 1) (d.1 + 1) (by omega)
+  generalize up ge nb (nb - d.1 + 1) (d.1 + 1) = u at hu
+  refine ⟨by omega, by omega, ?_⟩
+  intro i hi
+  simp only [List.mem_append] at hi
+  rcases hi with hi | hi
+  · have := hd.2.2 i hi; omega
+  · have := hu.2.2 i hi; omega
 
 theorem deBoorKnotReads_inb (deg left nb : Nat) (h1 : deg ≤ left) (h2 : left < nb) :
-    ∀ i ∈ deBoorKnotReads deg left, 0 ≤ i ∧ i < ((nb + deg + 1 : Nat) : Int) := by sorry
-theorem deBoorWorkTouch_inb (deg : Nat) : ∀ i ∈ deBoorWorkTouch deg, i < 2 * (deg + 1) := by sorry
+    ∀ i ∈ deBoorKnotReads deg left, 0 ≤ i ∧ i < ((nb + deg + 1 : Nat) : Int) := by
+  intro i hi
+  simp only [deBoorKnotReads, List.mem_flatMap, List.mem_range, List.mem_cons, List.not_mem_nil, or_false] at hi
+  obtain ⟨i0, hi0, j0, hj0, hi⟩ := hi
+  rcases hi with rfl | rfl <;> omega
+
+theorem deBoorWorkTouch_inb (deg : Nat) : ∀ i ∈ deBoorWorkTouch deg, i < 2 * (deg + 1) := by
+  intro i hi
+  simp only [deBoorWorkTouch, List.mem_flatMap, List.mem_range, List.mem_cons, List.not_mem_nil, or_false] at hi
+  rcases hi with rfl | ⟨i0, hi0, j0, hj0, hi⟩
+  · omega
+  · rcases hi with rfl | rfl <;> omega
+
 theorem accRowAbWrites_inb (deg left nb : Nat) (h1 : deg ≤ left) (h2 : left < nb) :
-    ∀ p ∈ accRowAbWrites deg left, p.1 < deg + 1 ∧ 0 ≤ p.2 ∧ p.2 < (nb : Int) := by sorry
+    ∀ p ∈ accRowAbWrites deg left, p.1 < deg + 1 ∧ 0 ≤ p.2 ∧ p.2 < (nb : Int) := by
+  intro p hp
+  simp only [accRowAbWrites, List.mem_flatMap, List.mem_range, List.mem_map] at hp
+  obtain ⟨j, hj, k, hk, rfl⟩ := hp
+  simp only
+  omega
+
 theorem accRowRhsWrites_inb (deg left nb : Nat) (h1 : deg ≤ left) (h2 : left < nb) :
-    ∀ i ∈ accRowRhsWrites deg left, 0 ≤ i ∧ i < (nb : Int) := by sorry
+    ∀ i ∈ accRowRhsWrites deg left, 0 ≤ i ∧ i < (nb : Int) := by
+  intro i hi
+  simp only [accRowRhsWrites, List.mem_map, List.mem_range] at hi
+  obtain ⟨j, hj, rfl⟩ := hi
+  omega
 
 /-! ### values (C12) -/
 
-theorem deBoor_length (knots : List Rat) (x : Rat) (deg left : Nat) : (deBoor knots x deg left).length = deg + 1 := by sorry
+theorem deBoorStep_length (knots : List Rat) (x : Rat) (left i : Nat) (old : List Rat) :
+    (deBoorStep knots x left i old).length = i + 1 := by
+  simp [deBoorStep]
+
+theorem deBoorUpTo_length (knots : List Rat) (x : Rat) (left i : Nat) :
+    (deBoorUpTo knots x left i).length = i + 1 := by
+  cases i with
+  | zero => rfl
+  | succ i => simp [deBoorUpTo, deBoorStep_length]
+
+theorem deBoor_length (knots : List Rat) (x : Rat) (deg left : Nat) : (deBoor knots x deg left).length = deg + 1 :=
+  deBoorUpTo_length knots x left deg
 
 /-- hypotheses under which de Boor's recursion is evaluated by the library: non-decreasing knots,
 x inside the non-degenerate interval `[knots[left], knots[left+1]]` -/
@@ -47,44 +162,599 @@ structure InInterval (knots : List Rat) (x : Rat) (left : Nat) : Prop where
   hi : x ≤ knots.getD (left + 1) 0
   nondeg : knots.getD left 0 < knots.getD (left + 1) 0
 
+theorem getD_lt {α} (l : List α) (d : α) (n : Nat) (h : n < l.length) : l.getD n d = l[n] := by
+  simp [List.getD_eq_getElem?_getD, h]
+theorem getD_ge {α} (l : List α) (d : α) (n : Nat) (h : l.length ≤ n) : l.getD n d = d := by
+  simp [List.getD_eq_getElem?_getD, h]
+
+theorem knots_mono (knots : List Rat) (hs : knots.Pairwise (· ≤ ·)) {i j : Nat} (hij : i ≤ j)
+    (hj : j < knots.length) : knots.getD i 0 ≤ knots.getD j 0 := by
+  rw [getD_lt _ _ _ hj, getD_lt _ _ _ (by omega : i < knots.length)]
+  rcases Nat.eq_or_lt_of_le hij with rfl | h
+  · exact Rat.le_refl
+  · exact (List.pairwise_iff_getElem.mp hs) i j _ _ h
+
+/-! sums over `List.range` -/
+def sumTo (g : Nat → Rat) : Nat → Rat
+  | 0 => 0
+  | n+1 => sumTo g n + g n
+
+theorem sum_map_range (g : Nat → Rat) (n : Nat) : ((List.range n).map g).sum = sumTo g n := by
+  induction n with
+  | zero => rfl
+  | succ n ih => simp [List.range_succ, List.sum_append, ih, sumTo]
+
+theorem sumTo_add (a b : Nat → Rat) (n : Nat) : sumTo (fun j => a j + b j) n = sumTo a n + sumTo b n := by
+  induction n with
+  | zero => simp [sumTo]
+  | succ n ih => simp only [sumTo, ih]; ring
+
+theorem sumTo_congr (a b : Nat → Rat) (n : Nat) (h : ∀ j, j < n → a j = b j) : sumTo a n = sumTo b n := by
+  induction n with
+  | zero => rfl
+  | succ n ih => simp only [sumTo]; rw [ih (fun j hj => h j (by omega)), h n (by omega)]
+
+theorem sumTo_shift (g : Nat → Rat) (n : Nat) : sumTo g (n+1) = g 0 + sumTo (fun j => g (j+1)) n := by
+  induction n with
+  | zero => simp [sumTo]
+  | succ n ih => rw [sumTo, ih]; simp only [sumTo]; ring
+
+theorem sum_eq_sumTo (l : List Rat) : l.sum = sumTo (fun j => l.getD j 0) l.length := by
+  induction l with
+  | nil => rfl
+  | cons a l ih =>
+    rw [List.length_cons, sumTo_shift, List.sum_cons, ih]
+    simp
+
+/-- the two knots of inner iteration `j` of pass `i` bracket the interval -/
+theorem knot_bracket (knots : List Rat) (x : Rat) (left i j : Nat) (h : InInterval knots x left)
+    (hil : i ≤ left) (hk : left + i < knots.length) (hj1 : 1 ≤ j) (hji : j ≤ i) :
+    knots.getD (left + j - i) 0 ≤ x ∧ x ≤ knots.getD (left + j) 0 ∧
+    knots.getD (left + j - i) 0 < knots.getD (left + j) 0 := by
+  have h1 := knots_mono knots h.sorted (by omega : left + j - i ≤ left) (by omega)
+  have h2 := knots_mono knots h.sorted (by omega : left + 1 ≤ left + j) (by omega)
+  have := h.lo; have := h.hi; have := h.nondeg
+  refine ⟨by linarith, by linarith, by linarith⟩
+
+theorem deBoorStep_getD (knots : List Rat) (x : Rat) (left i : Nat) (old : List Rat) (j : Nat) (hj : j ≤ i) :
+    (deBoorStep knots x left i old).getD j 0 =
+    (if 1 ≤ j then (if knots.getD (left + j - i) 0 = knots.getD (left + j) 0 then 0 else
+        old.getD (j - 1) 0 / (knots.getD (left + j) 0 - knots.getD (left + j - i) 0)) * (x - knots.getD (left + j - i) 0) else 0) +
+    (if j + 1 ≤ i then (if knots.getD (left + (j + 1) - i) 0 = knots.getD (left + (j + 1)) 0 then 0 else
+        old.getD j 0 / (knots.getD (left + (j + 1)) 0 - knots.getD (left + (j + 1) - i) 0)) * (knots.getD (left + j + 1) 0 - x) else 0) := by
+  simp only [deBoorStep, List.getD_eq_getElem?_getD, List.getElem?_map, List.getElem?_range (by omega : j < i + 1)]
+  simp
+
+theorem deBoorStep_nonneg (knots : List Rat) (x : Rat) (left i : Nat) (old : List Rat) (h : InInterval knots x left)
+    (hil : i ≤ left) (hk : left + i < knots.length) (hold : ∀ j, 0 ≤ old.getD j 0) (j : Nat) :
+    0 ≤ (deBoorStep knots x left i old).getD j 0 := by
+  by_cases hj : j ≤ i
+  · rw [deBoorStep_getD _ _ _ _ _ _ hj]
+    apply add_nonneg
+    · split
+      · rename_i h1
+        have hb := knot_bracket knots x left i j h hil hk h1 hj
+        rw [if_neg (ne_of_lt hb.2.2)]
+        apply mul_nonneg
+        · apply div_nonneg (hold _); linarith
+        · linarith
+      · exact le_refl _
+    · split
+      · rename_i h1
+        have hb := knot_bracket knots x left i (j+1) h hil hk (by omega) h1
+        rw [if_neg (ne_of_lt hb.2.2)]
+        apply mul_nonneg
+        · apply div_nonneg (hold _); linarith
+        · have := hb.2.1; rw [← Nat.add_assoc] at this; linarith
+      · exact le_refl _
+  · rw [getD_ge _ _ _ (by rw [deBoorStep_length]; omega)]
+
+theorem deBoorStep_sum (knots : List Rat) (x : Rat) (left i : Nat) (old : List Rat) (h : InInterval knots x left)
+    (hil : i ≤ left) (hk : left + i < knots.length) (hlen : old.length = i) :
+    (deBoorStep knots x left i old).sum = old.sum := by
+  rw [sum_eq_sumTo, deBoorStep_length, sum_eq_sumTo old, hlen]
+  rw [sumTo_congr _ _ _ (fun j hj => deBoorStep_getD knots x left i old j (by omega))]
+  rw [sumTo_add, sumTo_shift, sumTo]
+  simp only [Nat.not_succ_le_self, if_false]
+  rw [show ∀ a b : Rat, 0 + a + (b + 0) = a + b from fun a b => by ring, ← sumTo_add]
+  apply sumTo_congr
+  intro j hj
+  have hb := knot_bracket knots x left i (j+1) h hil hk (by omega) (by omega)
+  simp only [← Nat.add_assoc] at hb ⊢
+  simp only [Nat.le_add_left, if_true, Nat.add_sub_cancel, if_pos (show j + 1 ≤ i by omega),
+    if_neg (ne_of_lt hb.2.2)]
+  have hne : knots.getD (left + j + 1) 0 - knots.getD (left + j + 1 - i) 0 ≠ 0 := by
+    have := hb.2.2; intro e; linarith
+  field_simp
+  ring
+
+theorem deBoorUpTo_inv (knots : List Rat) (x : Rat) (left i : Nat) (h : InInterval knots x left)
+    (hil : i ≤ left) (hk : left + i < knots.length) :
+    (∀ j, 0 ≤ (deBoorUpTo knots x left i).getD j 0) ∧ (deBoorUpTo knots x left i).sum = 1 := by
+  induction i with
+  | zero =>
+    refine ⟨?_, by simp [deBoorUpTo]⟩
+    intro j
+    cases j <;> simp [deBoorUpTo]
+  | succ i ih =>
+    have := ih (by omega) (by omega)
+    simp only [deBoorUpTo]
+    refine ⟨deBoorStep_nonneg _ _ _ _ _ h hil hk this.1, ?_⟩
+    rw [deBoorStep_sum _ _ _ _ _ h hil hk (deBoorUpTo_length _ _ _ _), this.2]
+
 theorem deBoor_nonneg (knots : List Rat) (x : Rat) (deg left : Nat) (h : InInterval knots x left)
     (hd : deg ≤ left) (hk : left + deg < knots.length) :
-    ∀ v ∈ deBoor knots x deg left, 0 ≤ v := by sorry
+    ∀ v ∈ deBoor knots x deg left, 0 ≤ v := by
+  intro v hv
+  obtain ⟨n, hn, rfl⟩ := List.getElem_of_mem hv
+  have := (deBoorUpTo_inv knots x left deg h hd hk).1 n
+  change 0 ≤ (deBoor knots x deg left).getD n 0 at this
+  rwa [getD_lt _ _ _ hn] at this
 theorem deBoor_sum_one (knots : List Rat) (x : Rat) (deg left : Nat) (h : InInterval knots x left)
     (hd : deg ≤ left) (hk : left + deg < knots.length) :
-    (deBoor knots x deg left).sum = 1 := by sorry
+    (deBoor knots x deg left).sum = 1 := (deBoorUpTo_inv knots x left deg h hd hk).2
+
+
+theorem cox_zero_left (knots : List Rat) (hs : knots.Pairwise (· ≤ ·)) (x : Rat) (p m : Nat)
+    (hm : m + p < knots.length) (hx : x < knots.getD m 0) : cox knots p m x = 0 := by
+  induction p generalizing m with
+  | zero =>
+    simp only [cox]
+    rw [if_neg]; intro h; linarith [h.1]
+  | succ p ih =>
+    have h1 := knots_mono knots hs (Nat.le_succ m) (by omega)
+    simp only [cox, ih m (by omega) hx, ih (m + 1) (by omega) (by linarith)]
+    simp
+
+theorem cox_zero_right (knots : List Rat) (hs : knots.Pairwise (· ≤ ·)) (x : Rat) (p m : Nat)
+    (hm : m + p + 1 < knots.length) (hx : knots.getD (m + p + 1) 0 ≤ x) : cox knots p m x = 0 := by
+  induction p generalizing m with
+  | zero =>
+    simp only [cox]
+    rw [if_neg]; intro h; have := h.2; simp only [Nat.add_zero] at hx; linarith
+  | succ p ih =>
+    have h1 := knots_mono knots hs (Nat.le_succ (m + p + 1)) (by omega)
+    have e : m + 1 + p + 1 = m + (p + 1) + 1 := by omega
+    simp only [cox, ih m (by omega) (by rw [← Nat.add_assoc] at hx; linarith), ih (m + 1) (by omega) (by rw [e]; exact hx)]
+    simp
+
+theorem deBoorUpTo_eq_cox (knots : List Rat) (x : Rat) (left i : Nat) (h : InInterval knots x left)
+    (hx : x < knots.getD (left + 1) 0) (hil : i ≤ left) (hk : left + i < knots.length) (j : Nat) (hj : j ≤ i) :
+    (deBoorUpTo knots x left i).getD j 0 = cox knots i (left - i + j) x := by
+  induction i generalizing j with
+  | zero =>
+    have : j = 0 := by omega
+    subst this
+    simp only [deBoorUpTo, cox, Nat.sub_zero, Nat.add_zero]
+    rw [if_pos ⟨h.lo, hx⟩]; rfl
+  | succ p ih =>
+    have ih' := fun j hj => ih (by omega) (by omega) j hj
+    simp only [deBoorUpTo]
+    rw [deBoorStep_getD _ _ _ _ _ _ hj]
+    simp only [cox]
+    have e1 : left - (p + 1) + j + p + 1 = left + j := by omega
+    have e2 : left - (p + 1) + j + p + 2 = left + j + 1 := by omega
+    have e3 : left - (p + 1) + j + 1 = left + (j + 1) - (p + 1) := by omega
+    have e4 : left - (p + 1) + j = left + j - (p + 1) := by omega
+    rw [e1, e2]
+    congr 1
+    · by_cases h1 : 1 ≤ j
+      · have hb := knot_bracket knots x left (p + 1) j h hil hk h1 hj
+        have e5 : left - (p + 1) + j = left - p + (j - 1) := by omega
+        rw [if_pos h1, if_neg (ne_of_lt hb.2.2), ih' (j - 1) (by omega), ← e5, ← e4]
+        have hne : knots.getD (left + j) 0 - knots.getD (left - (p + 1) + j) 0 ≠ 0 := by
+          have := hb.2.2; rw [← e4] at this; intro e; linarith
+        rw [if_neg hne]
+        field_simp
+      · have hj0 : j = 0 := by omega
+        subst hj0
+        rw [if_neg h1, cox_zero_right knots h.sorted x p (left - (p + 1) + 0) (by omega)
+          (by rw [show left - (p + 1) + 0 + p + 1 = left by omega]; exact h.lo)]
+        simp
+    · by_cases h1 : j + 1 ≤ p + 1
+      · have hb := knot_bracket knots x left (p + 1) (j + 1) h hil hk (by omega) h1
+        have e5 : left - (p + 1) + j + 1 = left - p + j := by omega
+        rw [if_pos h1, if_neg (ne_of_lt hb.2.2), e5, ← ih' j (by omega), ← e5, e3]
+        have hne : knots.getD (left + j + 1) 0 - knots.getD (left + (j + 1) - (p + 1)) 0 ≠ 0 :=
+          sub_ne_zero.mpr (ne_of_gt hb.2.2)
+        rw [if_neg hne, show left + (j + 1) = left + j + 1 from rfl]
+        field_simp
+      · have hj0 : j = p + 1 := by omega
+        subst hj0
+        rw [if_neg h1, cox_zero_left knots h.sorted x p (left - (p + 1) + (p + 1) + 1) (by omega)
+          (by rw [show left - (p + 1) + (p + 1) + 1 = left + 1 by omega]; exact hx)]
+        simp
 
 /-- the values are the Cox–de Boor basis functions `B_{left-deg+j, deg}(x)` (x in the half-open interval) -/
 theorem deBoor_eq_cox (knots : List Rat) (x : Rat) (deg left : Nat) (h : InInterval knots x left)
     (hx : x < knots.getD (left + 1) 0) (hd : deg ≤ left) (hk : left + deg < knots.length) (j : Nat) (hj : j ≤ deg) :
-    (deBoor knots x deg left).getD j 0 = cox knots deg (left - deg + j) x := by sorry
+    (deBoor knots x deg left).getD j 0 = cox knots deg (left - deg + j) x :=
+  deBoorUpTo_eq_cox knots x left deg h hx hd hk j hj
 
-/-- `_find_interval` returns the interval containing x (the last one at the right end), whatever
-`last_left` was -/
+theorem down_stop (lt : Nat → Bool) (deg f left : Nat) (hl : deg ≤ left) (hf : left - deg + 1 ≤ f) :
+    lt (down lt deg f left).1 = false ∨ (down lt deg f left).1 = deg := by
+  induction f generalizing left with
+  | zero => omega
+  | succ f ih =>
+    simp only [down]
+    split
+    · rename_i hc
+      simp only [Bool.and_eq_true, bne_iff_ne, ne_eq] at hc
+      exact ih (left - 1) (by omega) (by omega)
+    · rename_i hc
+      simp only [Bool.and_eq_true, bne_iff_ne, ne_eq, not_and, Decidable.not_not] at hc
+      by_cases h : lt left = true
+      · right; exact hc h
+      · left; simpa using h
+
+theorem up_stop (ge : Nat → Bool) (nb f left : Nat) (hl : left ≤ nb) (hf : nb - left + 1 ≤ f) :
+    (ge (up ge nb f left).1 = false ∨ (up ge nb f left).1 = nb) ∧
+    ∀ i, left ≤ i → i < (up ge nb f left).1 → ge i = true := by
+  induction f generalizing left with
+  | zero => omega
+  | succ f ih =>
+    simp only [up]
+    split
+    · rename_i hc
+      simp only [Bool.and_eq_true, bne_iff_ne, ne_eq] at hc
+      have := ih (left + 1) (by omega) (by omega)
+      refine ⟨this.1, ?_⟩
+      intro i h1 h2
+      by_cases h : i = left
+      · subst h; exact hc.1
+      · exact this.2 i (by omega) h2
+    · rename_i hc
+      simp only [Bool.and_eq_true, bne_iff_ne, ne_eq, not_and, Decidable.not_not] at hc
+      refine ⟨?_, fun i h1 h2 => by omega⟩
+      by_cases h : ge left = true
+      · right; exact hc h
+      · left; simpa using h
+
 theorem findInterval_spec (knots : List Rat) (deg nb : Nat) (x : Rat) (lastLeft : Nat)
     (hs : knots.Pairwise (· ≤ ·)) (hlen : knots.length = nb + deg + 1) (hd : deg < nb)
     (hlo : knots.getD deg 0 ≤ x) :
     let r := findInterval knots deg x lastLeft nb
-    deg ≤ r ∧ r < nb ∧ knots.getD r 0 ≤ x ∧ (x < knots.getD (r + 1) 0 ∨ r + 1 = nb) := by sorry
+    deg ≤ r ∧ r < nb ∧ knots.getD r 0 ≤ x ∧ (x < knots.getD (r + 1) 0 ∨ r + 1 = nb) := by
+  simp only [findInterval, findIntervalT]
+  generalize hl0 : (if deg < lastLeft ∧ lastLeft < nb then lastLeft else deg) = l0
+  have hl0a : deg ≤ l0 ∧ l0 < nb := by subst hl0; split <;> omega
+  generalize hlt : (fun i => decide (x < knots.getD i 0)) = lt
+  generalize hge : (fun i => decide (x ≥ knots.getD i 0)) = ge
+  have hdb := down_bounds lt deg (l0 - deg + 1) l0 hl0a.1
+  have hds := down_stop lt deg (l0 - deg + 1) l0 hl0a.1 (Nat.le_refl _)
+  generalize (down lt deg (l0 - deg + 1) l0).1 = l at hdb hds
+  have hub := up_bounds ge nb (nb - l + 1) (l + 1) (by omega)
+  have hus := up_stop ge nb (nb - l + 1) (l + 1) (by omega) (by omega)
+  generalize (up ge nb (nb - l + 1) (l + 1)).1 = m at hub hus
+  have hl : knots.getD l 0 ≤ x := by
+    rcases hds with h | h
+    · subst hlt; simpa using h
+    · subst h; exact hlo
+  refine ⟨by omega, by omega, ?_, ?_⟩
+  · by_cases h : m = l + 1
+    · subst h; simpa using hl
+    · have := hus.2 (m - 1) (by omega) (by omega)
+      subst hge; simpa using this
+  · rcases hus.1 with h | h
+    · left
+      subst hge
+      have e : m - 1 + 1 = m := by omega
+      rw [e]; simpa using h
+    · right; omega
+
 
 /-- well-formed CSR rows -/
 def RowsWf (deg nb : Nat) (rows : List Row) : Prop :=
   ∀ r ∈ rows, r.vals.length = deg + 1 ∧ deg ≤ r.left ∧ r.left < nb
 
+theorem designRows_fold (knots : List Rat) (deg nb : Nat) (xs : List Rat) (h : deg < nb)
+    (acc : Nat × List Row) (hacc : RowsWf deg nb acc.2) :
+    RowsWf deg nb (xs.foldl (fun (acc : Nat × List Row) x =>
+      let l := findInterval knots deg x acc.1 nb
+      (l, acc.2 ++ [⟨l, deBoor knots x deg l⟩])) acc).2 ∧
+    (xs.foldl (fun (acc : Nat × List Row) x =>
+      let l := findInterval knots deg x acc.1 nb
+      (l, acc.2 ++ [⟨l, deBoor knots x deg l⟩])) acc).2.length = acc.2.length + xs.length := by
+  induction xs generalizing acc with
+  | nil => exact ⟨hacc, rfl⟩
+  | cons x xs ih =>
+    simp only [List.foldl_cons]
+    have := ih (findInterval knots deg x acc.1 nb, acc.2 ++ [⟨findInterval knots deg x acc.1 nb, deBoor knots x deg (findInterval knots deg x acc.1 nb)⟩]) (by
+      intro r hr
+      simp only [List.mem_append, List.mem_singleton] at hr
+      rcases hr with hr | rfl
+      · exact hacc r hr
+      · have := findIntervalT_inb (fun i => decide (x < knots.getD i 0)) (fun i => decide (x ≥ knots.getD i 0)) deg acc.1 nb h
+        exact ⟨deBoor_length _ _ _ _, this.1, this.2.1⟩)
+    refine ⟨this.1, ?_⟩
+    rw [this.2]
+    simp only [List.length_append, List.length_cons, List.length_nil]
+    omega
+
 theorem designRows_wf (knots : List Rat) (deg : Nat) (xs : List Rat) (h : deg < knots.length - (deg + 1)) :
-    RowsWf deg (knots.length - (deg + 1)) (designRows knots deg xs) ∧ (designRows knots deg xs).length = xs.length := by sorry
+    RowsWf deg (knots.length - (deg + 1)) (designRows knots deg xs) ∧ (designRows knots deg xs).length = xs.length := by
+  have := designRows_fold knots deg (knots.length - (deg + 1)) xs h (deg, []) (by intro r hr; simp at hr)
+  simpa [designRows] using this
+
+
+/-! ### the banded normal equations -/
+
+theorem getD_modify {α} (l : List α) (d : α) (f : α → α) (i j : Nat) :
+    (l.modify i f).getD j d = if i = j ∧ j < l.length then f (l.getD j d) else l.getD j d := by
+  simp only [List.getD_eq_getElem?_getD, List.getElem?_modify]
+  by_cases hj : j < l.length
+  · simp only [List.getElem?_eq_getElem hj, hj, and_true]
+    split <;> simp
+  · simp only [hj, and_false, if_false]
+    rw [List.getElem?_eq_none (by omega)]; rfl
+
+/-- the rhs loop of `accRow` -/
+theorem rhs_fold (base : Nat) (g : Nat → Rat) (n : Nat) (rhs : List Rat) (c : Nat) :
+    ((List.range n).foldl (fun rhs j => rhs.modify (base + j) (· + g j)) rhs).length = rhs.length ∧
+    ((List.range n).foldl (fun rhs j => rhs.modify (base + j) (· + g j)) rhs).getD c 0 =
+      rhs.getD c 0 + (if base ≤ c ∧ c < base + n ∧ c < rhs.length then g (c - base) else 0) := by
+  induction n with
+  | zero => simp; intros; omega
+  | succ n ih =>
+    rw [List.range_succ, List.foldl_append]
+    simp only [List.foldl_cons, List.foldl_nil, List.length_modify, getD_modify]
+    refine ⟨ih.1, ?_⟩
+    rw [ih.1, ih.2]
+    by_cases h1 : base + n = c
+    · subst h1
+      have h3 : base + n < base + (n + 1) := by omega
+      by_cases h2 : base + n < rhs.length <;> simp [h2, h3]
+    · simp only [h1, false_and, if_false]
+      congr 1
+      have : (c < base + n) ↔ (c < base + (n + 1)) := by omega
+      simp only [this]
+
+
+def entry (ab : List (List Rat)) (r c : Nat) : Rat := (ab.getD r []).getD c 0
+def Shape (m nb : Nat) (ab : List (List Rat)) : Prop :=
+  ab.length = m ∧ ∀ r, r < m → (ab.getD r []).length = nb
+def upd (ab : List (List Rat)) (r c : Nat) (v : Rat) : List (List Rat) :=
+  ab.modify r (fun row => row.modify c (· + v))
+
+theorem upd_shape {m nb : Nat} {ab : List (List Rat)} (h : Shape m nb ab) (r' c' : Nat) (v : Rat) :
+    Shape m nb (upd ab r' c' v) := by
+  refine ⟨by simp [upd, h.1], ?_⟩
+  intro r hr
+  simp only [upd, getD_modify]
+  split
+  · rw [List.length_modify]; exact h.2 r hr
+  · exact h.2 r hr
+
+theorem upd_entry {m nb : Nat} {ab : List (List Rat)} (h : Shape m nb ab) (r' c' : Nat) (v : Rat)
+    (r c : Nat) (hr : r < m) (hc : c < nb) :
+    entry (upd ab r' c' v) r c = entry ab r c + (if r' = r ∧ c' = c then v else 0) := by
+  simp only [entry, upd, getD_modify, h.1, hr, and_true]
+  by_cases h1 : r' = r
+  · simp only [h1, if_true, true_and]
+    rw [getD_modify, h.2 r hr]
+    by_cases h2 : c' = c
+    · simp only [h2, hc, and_self, if_true]
+    · simp only [h2, false_and, if_false, Rat.add_zero]
+  · simp only [h1, false_and, if_false, Rat.add_zero]
+
+theorem inner_fold {m nb : Nat} (base j : Nat) (v : Nat → Rat) (n : Nat) {ab : List (List Rat)}
+    (h : Shape m nb ab) (r c : Nat) (hr : r < m) (hc : c < nb) :
+    Shape m nb ((List.range n).foldl (fun ab k => upd ab (j - k) (base + k) (v k)) ab) ∧
+    entry ((List.range n).foldl (fun ab k => upd ab (j - k) (base + k) (v k)) ab) r c =
+      entry ab r c + (if base ≤ c ∧ c - base < n ∧ j - (c - base) = r then v (c - base) else 0) := by
+  induction n with
+  | zero => simp [h]
+  | succ n ih =>
+    rw [List.range_succ, List.foldl_append]
+    simp only [List.foldl_cons, List.foldl_nil]
+    refine ⟨upd_shape ih.1 _ _ _, ?_⟩
+    rw [upd_entry ih.1 _ _ _ _ _ hr hc, ih.2, Rat.add_assoc]
+    congr 1
+    by_cases h1 : base + n = c
+    · subst h1
+      have e : base + n - base = n := by omega
+      simp only [e, Nat.lt_irrefl, false_and, and_false, if_false, Nat.le_add_right, true_and,
+        Nat.lt_add_one, and_true, Rat.zero_add]
+    · simp only [h1, and_false, if_false, Rat.add_zero]
+      by_cases hb : base ≤ c
+      · have e : (c - base < n) ↔ (c - base < n + 1) := by omega
+        simp only [e]
+      · simp only [hb, false_and, if_false]
+
+theorem outer_fold {m nb : Nat} (base : Nat) (V : Nat → Nat → Rat) (n : Nat) {ab : List (List Rat)}
+    (h : Shape m nb ab) (r c : Nat) (hr : r < m) (hc : c < nb) :
+    Shape m nb ((List.range n).foldl (fun ab j =>
+      (List.range (j + 1)).foldl (fun ab k => upd ab (j - k) (base + k) (V j k)) ab) ab) ∧
+    entry ((List.range n).foldl (fun ab j =>
+      (List.range (j + 1)).foldl (fun ab k => upd ab (j - k) (base + k) (V j k)) ab) ab) r c =
+      entry ab r c + (if base ≤ c ∧ c - base + r < n then V (c - base + r) (c - base) else 0) := by
+  induction n with
+  | zero => simp [h]
+  | succ n ih =>
+    rw [List.range_succ, List.foldl_append]
+    simp only [List.foldl_cons, List.foldl_nil]
+    have := inner_fold base n (V n) (n + 1) ih.1 r c hr hc
+    refine ⟨this.1, ?_⟩
+    rw [this.2, ih.2, Rat.add_assoc]
+    congr 1
+    by_cases h1 : base ≤ c ∧ c - base + r = n
+    · have e1 : ¬ (c - base + r < n) := by omega
+      have e2 : c - base < n + 1 ∧ n - (c - base) = r ∧ c - base + r < n + 1 := by omega
+      obtain ⟨h1a, h1b⟩ := h1
+      simp only [e2, h1a, h1b, and_self, if_true, Nat.lt_irrefl, and_false, if_false,
+        Nat.lt_add_one, Rat.zero_add]
+    · have e1 : ¬ (base ≤ c ∧ c - base < n + 1 ∧ n - (c - base) = r) := by omega
+      simp only [e1, if_false, Rat.add_zero]
+      by_cases hb : base ≤ c
+      · have e2 : (c - base + r < n) ↔ (c - base + r < n + 1) := by omega
+        simp only [e2]
+      · simp only [hb, false_and, if_false]
+
+
+theorem accRow_fst (deg : Nat) (ab : List (List Rat)) (rhs : List Rat) (row : Row) (y w : Rat) :
+    (accRow deg ab rhs row y w).1 = (List.range (deg + 1)).foldl (fun ab j =>
+      (List.range (j + 1)).foldl (fun ab k => upd ab (j - k) (row.left - deg + k)
+        (row.vals.getD j 0 * row.vals.getD k 0 * w)) ab) ab := rfl
+
+theorem accRow_snd (deg : Nat) (ab : List (List Rat)) (rhs : List Rat) (row : Row) (y w : Rat) :
+    (accRow deg ab rhs row y w).2 = (List.range (deg + 1)).foldl (fun rhs j =>
+      rhs.modify (row.left - deg + j) (· + row.vals.getD j 0 * y * w)) rhs := rfl
+
+theorem outer_shape {m nb : Nat} (base : Nat) (V : Nat → Nat → Rat) (n : Nat) {ab : List (List Rat)}
+    (h : Shape m nb ab) :
+    Shape m nb ((List.range n).foldl (fun ab j =>
+      (List.range (j + 1)).foldl (fun ab k => upd ab (j - k) (base + k) (V j k)) ab) ab) := by
+  induction n with
+  | zero => simpa using h
+  | succ n ih =>
+    rw [List.range_succ, List.foldl_append]
+    simp only [List.foldl_cons, List.foldl_nil]
+    generalize n + 1 = k
+    induction k with
+    | zero => simpa using ih
+    | succ k ih2 =>
+      rw [List.range_succ, List.foldl_append]
+      simp only [List.foldl_cons, List.foldl_nil]
+      exact upd_shape ih2 _ _ _
+
+theorem accRow_shape {deg nb : Nat} {ab : List (List Rat)} (rhs : List Rat) (row : Row) (y w : Rat)
+    (h : Shape (deg + 1) nb ab) : Shape (deg + 1) nb (accRow deg ab rhs row y w).1 := by
+  rw [accRow_fst]
+  exact outer_shape _ _ _ h
+
+theorem accRow_rhs_length {deg : Nat} (ab : List (List Rat)) (rhs : List Rat) (row : Row) (y w : Rat) :
+    (accRow deg ab rhs row y w).2.length = rhs.length := by
+  rw [accRow_snd]
+  exact (rhs_fold (row.left - deg) (fun j => row.vals.getD j 0 * y * w) (deg + 1) rhs 0).1
+
+theorem accRow_entry {deg nb : Nat} {ab : List (List Rat)} (rhs : List Rat) (row : Row) (y w : Rat)
+    (h : Shape (deg + 1) nb ab) (hrow : deg ≤ row.left)
+    (r c : Nat) (hr : r ≤ deg) (hc : c + r < nb) :
+    Shape (deg + 1) nb (accRow deg ab rhs row y w).1 ∧
+    entry (accRow deg ab rhs row y w).1 r c = entry ab r c + w * row.at deg (c + r) * row.at deg c := by
+  rw [accRow_fst]
+  have := outer_fold (row.left - deg) (fun j k => row.vals.getD j 0 * row.vals.getD k 0 * w) (deg + 1) h r c
+    (by omega) (by omega)
+  refine ⟨this.1, ?_⟩
+  rw [this.2]
+  congr 1
+  simp only [Row.at]
+  by_cases h1 : row.left - deg ≤ c ∧ c - (row.left - deg) + r < deg + 1
+  · have e1 : row.left ≤ c + r + deg ∧ c + r ≤ row.left := by omega
+    have e2 : row.left ≤ c + deg ∧ c ≤ row.left := by omega
+    have e3 : c - (row.left - deg) + r = c + r + deg - row.left := by omega
+    have e4 : c - (row.left - deg) = c + deg - row.left := by omega
+    rw [if_pos h1, if_pos e1, if_pos e2, e3, e4]
+    ring
+  · rw [if_neg h1]
+    by_cases e2 : row.left ≤ c + deg ∧ c ≤ row.left
+    · have e1 : ¬ (row.left ≤ c + r + deg ∧ c + r ≤ row.left) := by omega
+      rw [if_neg e1]; ring
+    · rw [if_neg e2]; ring
+
+theorem accRow_rhs {deg nb : Nat} (ab : List (List Rat)) {rhs : List Rat} (row : Row) (y w : Rat)
+    (h : rhs.length = nb) (hrow : deg ≤ row.left) (c : Nat) (hc : c < nb) :
+    (accRow deg ab rhs row y w).2.length = nb ∧
+    (accRow deg ab rhs row y w).2.getD c 0 = rhs.getD c 0 + w * y * row.at deg c := by
+  rw [accRow_snd]
+  have := rhs_fold (row.left - deg) (fun j => row.vals.getD j 0 * y * w) (deg + 1) rhs c
+  refine ⟨this.1.trans h, ?_⟩
+  rw [this.2]
+  congr 1
+  simp only [Row.at]
+  by_cases h1 : row.left - deg ≤ c ∧ c < row.left - deg + (deg + 1) ∧ c < rhs.length
+  · have e2 : row.left ≤ c + deg ∧ c ≤ row.left := by omega
+    have e4 : c - (row.left - deg) = c + deg - row.left := by omega
+    rw [if_pos h1, if_pos e2, e4]
+    ring
+  · have e2 : ¬ (row.left ≤ c + deg ∧ c ≤ row.left) := by omega
+    rw [if_neg h1, if_neg e2]; ring
+
+theorem btb_fold {deg nb : Nat} (L : List (Row × Rat × Rat)) (hL : ∀ p ∈ L, deg ≤ p.1.left)
+    (acc : List (List Rat) × List Rat) (h1 : Shape (deg + 1) nb acc.1) (h2 : acc.2.length = nb) :
+    (∀ r c, r ≤ deg → c + r < nb →
+      entry (L.foldl (fun acc (r, (y, w)) => accRow deg acc.1 acc.2 r y w) acc).1 r c =
+        entry acc.1 r c + (L.map fun (row, (y, w)) => w * row.at deg (c + r) * row.at deg c).sum) ∧
+    (∀ c, c < nb →
+      (L.foldl (fun acc (r, (y, w)) => accRow deg acc.1 acc.2 r y w) acc).2.getD c 0 =
+        acc.2.getD c 0 + (L.map fun (row, (y, w)) => w * y * row.at deg c).sum) := by
+  induction L generalizing acc with
+  | nil => simp
+  | cons p L ih =>
+    obtain ⟨row, y, w⟩ := p
+    have hrow : deg ≤ row.left := hL (row, y, w) (by simp)
+    simp only [List.foldl_cons, List.map_cons, List.sum_cons]
+    have hs : Shape (deg + 1) nb (accRow deg acc.1 acc.2 row y w).1 := accRow_shape acc.2 row y w h1
+    have ih' := ih (fun p hp => hL p (by simp [hp])) (accRow deg acc.1 acc.2 row y w) hs
+      ((accRow_rhs_length acc.1 acc.2 row y w).trans h2)
+    refine ⟨?_, ?_⟩
+    · intro r c hr hc
+      rw [ih'.1 r c hr hc, (accRow_entry acc.2 row y w h1 hrow r c hr hc).2, Rat.add_assoc]
+    · intro c hc
+      rw [ih'.2 c hc, (accRow_rhs acc.1 row y w h2 hrow c hc).2, Rat.add_assoc]
+
+
+theorem zip3_map_drop_y {β} (F : Row → Rat → β) (rows : List Row) (ys ws : List Rat)
+    (hy : ys.length = rows.length) (hw : ws.length = rows.length) :
+    (rows.zip (ys.zip ws)).map (fun (row, (y, w)) => F row w) = (rows.zip ws).map (fun (row, w) => F row w) := by
+  induction rows generalizing ys ws with
+  | nil => simp
+  | cons r rows ih =>
+    cases ys with
+    | nil => simp at hy
+    | cons y ys =>
+      cases ws with
+      | nil => simp at hw
+      | cons w ws =>
+        simp only [List.length_cons, Nat.add_right_cancel_iff] at hy hw
+        simp only [List.zip_cons_cons, List.map_cons, ih ys ws hy hw]
+
+theorem shape_init (m nb : Nat) : Shape m nb (List.replicate m (List.replicate nb (0 : Rat))) := by
+  refine ⟨by simp, ?_⟩
+  intro r hr
+  simp [List.getD_eq_getElem?_getD, hr]
+
+theorem entry_init (m nb r c : Nat) : entry (List.replicate m (List.replicate nb (0 : Rat))) r c = 0 := by
+  simp only [entry, List.getD_eq_getElem?_getD, List.getElem?_replicate]
+  split
+  · simp only [Option.getD_some, List.getElem?_replicate]
+    split <;> rfl
+  · rfl
+
+theorem zip_wf {deg nb : Nat} {rows : List Row} (h : RowsWf deg nb rows) (ys ws : List Rat) :
+    ∀ p ∈ rows.zip (ys.zip ws), deg ≤ p.1.left := by
+  intro p hp
+  obtain ⟨row, y, w⟩ := p
+  exact (h row (List.of_mem_zip hp).1).2.1
 
 /-- **the banded normal equations are exact**: the accumulated lower bands are `B'WB` and the
 right-hand side is `B'Wy`, for every weight vector (zeros included) -/
 theorem btb_eq (deg nb : Nat) (rows : List Row) (ys ws : List Rat) (h : RowsWf deg nb rows)
     (hy : ys.length = rows.length) (hw : ws.length = rows.length) (r c : Nat) (hr : r ≤ deg) (hc : c + r < nb) :
-    ((btbBty deg nb rows ys ws).1.getD r []).getD c 0 = btbSpec deg rows ws r c := by sorry
+    ((btbBty deg nb rows ys ws).1.getD r []).getD c 0 = btbSpec deg rows ws r c := by
+  have := (btb_fold (rows.zip (ys.zip ws)) (zip_wf h ys ws)
+    (List.replicate (deg + 1) (List.replicate nb 0), List.replicate nb 0) (shape_init _ _) (by simp)).1 r c hr hc
+  rw [entry_init, Rat.zero_add] at this
+  rw [btbSpec, ← zip3_map_drop_y (fun row w => w * row.at deg (c + r) * row.at deg c) rows ys ws hy hw]
+  exact this
+
 theorem bty_eq (deg nb : Nat) (rows : List Row) (ys ws : List Rat) (h : RowsWf deg nb rows)
     (hy : ys.length = rows.length) (hw : ws.length = rows.length) (c : Nat) (hc : c < nb) :
-    (btbBty deg nb rows ys ws).2.getD c 0 = btySpec deg rows ys ws c := by sorry
+    (btbBty deg nb rows ys ws).2.getD c 0 = btySpec deg rows ys ws c := by
+  have := (btb_fold (rows.zip (ys.zip ws)) (zip_wf h ys ws)
+    (List.replicate (deg + 1) (List.replicate nb 0), List.replicate nb 0) (shape_init _ _) (by simp)).2 c hc
+  have e : (List.replicate nb (0 : Rat)).getD c 0 = 0 := by
+    simp only [List.getD_eq_getElem?_getD, List.getElem?_replicate]; split <;> rfl
+  rw [e, Rat.zero_add] at this
+  exact this
 
-theorem splineKnots_length (a b : Rat) (nk deg : Nat) : (splineKnots a b nk deg).length = nk + 2 * deg := by sorry
+
+theorem splineKnots_length (a b : Rat) (nk deg : Nat) : (splineKnots a b nk deg).length = nk + 2 * deg := by
+  simp [splineKnots]
 theorem basisMidpointsCount_eq (numKnots deg : Nat) (h : 2 ≤ numKnots) :
-    basisMidpointsCount (numKnots + 2 * deg) deg = numKnots + deg - 1 := by sorry
+    basisMidpointsCount (numKnots + 2 * deg) deg = numKnots + deg - 1 := by
+  unfold basisMidpointsCount
+  split <;> omega
+
 
 end PbVerif.Lemmas
